@@ -12,9 +12,10 @@ Record cfg := { size : Z; ooo : Z; lateness : Z; idle : Z }.
 Record twin := { t_start : Z; t_end : Z; t_close : Z; t_snap : list row }.  (* triggeredWindowInfo *)
 
 Record st := { init : bool; slot : Z (* currentSlot.Start *); data : list row;
-               trig : list twin; w : wm; pend : option Z (* watermark being handled *) }.
+               trig : list twin; w : wm; pend : option Z (* watermark being handled *);
+               adv : bool (* ghost: the slot has advanced at least once; read by no step *) }.
 
-Definition st0 : st := {| init := false; slot := 0; data := []; trig := []; w := wm0; pend := None |}.
+Definition st0 : st := {| init := false; slot := 0; data := []; trig := []; w := wm0; pend := None; adv := false |}.
 
 Record batch := { b_start : Z; b_end : Z; b_rows : list row; b_late : bool }.
 
@@ -39,7 +40,7 @@ Inductive op :=
 | Tick (now : Z).                     (* Watermark.update() *)
 
 Definition set_w (s : st) (w' : wm) : st :=
-  {| init := init s; slot := slot s; data := data s; trig := trig s; w := w'; pend := pend s |}.
+  {| init := init s; slot := slot s; data := data s; trig := trig s; w := w'; pend := pend s; adv := adv s |}.
 
 Fixpoint update_snap (l : list twin) (t : twin) (snap : list row) : list twin :=
   match l with
@@ -57,8 +58,8 @@ Definition add_core (c : cfg) (id ts now : Z) (s : st) : st * list batch :=
   (* an on-time row older than the not-yet-advanced first slot re-aligns that slot *)
   let sl := if init s && negb late && (ts <? sl0) then align ts (size c) else sl0 in
   let d := data s ++ [(id, ts)] in
-  let keep := ({| init := true; slot := sl; data := d; trig := trig s; w := w'; pend := pend s |}, []) in
-  let drop := ({| init := true; slot := sl; data := data s; trig := trig s; w := w'; pend := pend s |}, []) in
+  let keep := ({| init := true; slot := sl; data := d; trig := trig s; w := w'; pend := pend s; adv := adv s |}, []) in
+  let drop := ({| init := true; slot := sl; data := data s; trig := trig s; w := w'; pend := pend s; adv := adv s |}, []) in
   if late then
     if inwin c sl ts then keep
     else if 0 <? lateness c then
@@ -66,7 +67,7 @@ Definition add_core (c : cfg) (id ts now : Z) (s : st) : st * list batch :=
       | Some t =>
           let res := t_snap t ++ filter (fun r => in_twin t (rts r)) d in
           let kept := filter (fun r => negb (in_twin t (rts r))) d in
-          ({| init := true; slot := sl; data := kept; trig := update_snap (trig s) t res; w := w'; pend := pend s |},
+          ({| init := true; slot := sl; data := kept; trig := update_snap (trig s) t res; w := w'; pend := pend s; adv := adv s |},
            [{| b_start := t_start t; b_end := t_end t; b_rows := res; b_late := true |}])
       | None => drop
       end
@@ -94,16 +95,17 @@ Definition close_expired (wmk : Z) (s : st) : st :=
            | [] => data s
            | _ => filter (fun r => negb (existsb (fun t => in_twin t (rts r)) expired)) (data s)
            end in
-  {| init := init s; slot := slot s; data := d; trig := live; w := w s; pend := pend s |}.
+  {| init := init s; slot := slot s; data := d; trig := live; w := w s; pend := pend s; adv := adv s |}.
 
 Definition fire_step (c : cfg) (s : st) : st * list ev :=
   match pend s with
   | None => (s, [])
   | Some wmk =>
-    if negb (init s) then ({| init := init s; slot := slot s; data := data s; trig := trig s; w := w s; pend := None |}, [EvDE]) else
+    if negb (init s) then ({| init := init s; slot := slot s; data := data s; trig := trig s; w := w s; pend := None; adv := adv s |}, [EvDE]) else
     match minl (cand c (slot s) wmk (data s)) with
     | None =>
-        let s1 := {| init := init s; slot := rest_slot c (slot s) wmk; data := data s; trig := trig s; w := w s; pend := None |} in
+        let s1 := {| init := init s; slot := rest_slot c (slot s) wmk; data := data s; trig := trig s; w := w s; pend := None;
+                    adv := adv s || (slot s + size c <=? wmk) |} in
         (close_expired wmk s1, [EvDE])
     | Some a =>
         let ins := filter (fun r => inwin c a (rts r)) (data s) in
@@ -111,7 +113,7 @@ Definition fire_step (c : cfg) (s : st) : st * list ev :=
         let tr := if 0 <? lateness c
                   then trig s ++ [{| t_start := a; t_end := a + size c; t_close := a + size c + lateness c; t_snap := ins |}]
                   else trig s in
-        ({| init := init s; slot := a + size c; data := outs; trig := tr; w := w s; pend := pend s |},
+        ({| init := init s; slot := a + size c; data := outs; trig := tr; w := w s; pend := pend s; adv := true |},
          [EvBatch {| b_start := a; b_end := a + size c; b_rows := ins; b_late := false |}])
     end
   end.
@@ -126,7 +128,7 @@ Definition step (c : cfg) (s : st) (o : op) : st * list ev :=
       | None =>
         match pop_chan (w s) with
         | Some (x, w') =>
-            ({| init := init s; slot := slot s; data := data s; trig := trig s; w := w'; pend := Some x |}, [EvDB x])
+            ({| init := init s; slot := slot s; data := data s; trig := trig s; w := w'; pend := Some x; adv := adv s |}, [EvDB x])
         | None => (s, [EvD0])
         end
       end
